@@ -16,23 +16,25 @@ var AllBiases = []string{"criteriaOmission", "criteriaConcealment", "criteriaMix
 // GenOpts is the per-run profile of the workload generator (swarm style:
 // each run draws its own).
 type GenOpts struct {
-	Methods      []string
-	Biases       []string
-	MaxAlts      int
-	MaxCrit      int
-	MaxBiases    int
-	MinBiases    int
-	TieHeavy     bool
-	Fractions    bool
-	Negatives    bool
-	Ranges       float64 // probability of a declared valuesRange per criterion
-	Subset       float64 // probability that considered is a proper subset of known
-	CoinFlips    bool    // applyProbability strictly between 0 and 1 allowed
-	Disabled     bool    // disabled entries allowed
-	WeirdIds     bool
-	ManyAlts     bool   // MaxAlts is far beyond the usual bound; most requests use most of it
-	NearTies     bool   // values that differ by less than the tolerances code likes to compare with
-	IDPrefix     string // prepended to every criterion and alternative id (long and / or multi-byte identifiers)
+	Methods       []string
+	Biases        []string
+	MaxAlts       int
+	MaxCrit       int
+	MaxBiases     int
+	MinBiases     int
+	TieHeavy      bool
+	Fractions     bool
+	Negatives     bool
+	Ranges        float64 // probability of a declared valuesRange per criterion
+	Subset        float64 // probability that considered is a proper subset of known
+	CoinFlips     bool    // applyProbability strictly between 0 and 1 allowed
+	Disabled      bool    // disabled entries allowed
+	WeirdIds      bool
+	Collide       bool   // two ids that become equal under some normalisation (case, surrounding space, truncation)
+	NormWeights   bool   // weights that sum to exactly 1 (a distribution), as many clients send them
+	ManyAlts      bool   // MaxAlts is far beyond the usual bound; most requests use most of it
+	NearTies      bool   // values that differ by less than the tolerances code likes to compare with
+	IDPrefix      string // prepended to every criterion and alternative id (long and / or multi-byte identifiers)
 	CurrentChoice float64
 }
 
@@ -77,6 +79,8 @@ func SwarmOpts(r *Rand) GenOpts {
 		o.MaxBiases = r.Range(3, 6)
 	}
 	o.NearTies = r.Bool(0.12)
+	o.Collide = r.Bool(0.05)
+	o.NormWeights = r.Bool(0.15)
 	if r.Bool(0.03) {
 		// many alternatives (code that splits work into chunks, batches or pages only does so
 		// above some size)
@@ -224,6 +228,17 @@ func (g *Gen) Valid() *Req {
 				cs[i] = q.Crits[j]
 			}
 			q.Crits = cs
+		}
+	}
+	if g.O.Collide {
+		// distinct ids (byte-wise), equal after lower-casing / trimming / cutting to 32 characters
+		if nc >= 2 {
+			p := r.Perm(nc)
+			q.Crits[p[0]], q.Crits[p[1]] = collidingPair(r, q.Crits[p[0]], q.Crits[p[1]])
+		}
+		if na >= 2 && r.Bool(0.5) {
+			p := r.Perm(na)
+			q.Alts[p[0]], q.Alts[p[1]] = collidingPair(r, q.Alts[p[0]], q.Alts[p[1]])
 		}
 	}
 	if g.O.IDPrefix != "" {
@@ -379,7 +394,53 @@ func (g *Gen) extraFields(body J) {
 	}
 }
 
+// collidingPair turns ids a, b into two ids that differ byte-wise but not after a normalisation.
+func collidingPair(r *Rand, a, b string) (string, string) {
+	switch r.Intn(6) {
+	case 0:
+		if u := strings.ToUpper(a); u != a {
+			return a, u
+		}
+		return a, a + " "
+	case 1:
+		if t := strings.Title(a); t != a {
+			return a, t
+		}
+		return a, " " + a
+	case 2:
+		return a, a + " "
+	case 3:
+		return a, " " + a
+	case 4:
+		return a, a + "\t"
+	default:
+		long := "shared_beginning_of_two_long_identifiers_"
+		return long + a, long + b
+	}
+}
+
 func (g *Gen) weightsFor(q *Req) J {
+	if g.O.NormWeights && len(q.Crits) >= 2 {
+		// a distribution: integer parts of 10, 20 or 100
+		r := g.R
+		total := int(r.PickF(10, 20, 100))
+		n := len(q.Crits)
+		if n > total {
+			total = 100
+		}
+		parts := make([]int, n)
+		for i := range parts {
+			parts[i] = 1
+		}
+		for left := total - n; left > 0; left-- {
+			parts[r.Intn(n)]++
+		}
+		w := J{}
+		for i, c := range q.Crits {
+			w[c] = float64(parts[i]) / float64(total)
+		}
+		return w
+	}
 	w := J{}
 	for _, c := range q.Crits {
 		w[c] = g.weight()
